@@ -88,6 +88,9 @@ def parse_output(out):
             continue
         if ln.startswith('VERIFICATION:- FAILED'):
             r['status'] = 'failed'
+            if 'no panics' in ln:
+                # #[kani::should_panic] harness: the documented panic did NOT occur on some path
+                r['failed_checks'].append({'desc': 'expected panic did not occur (should_panic harness): ' + ln[len('VERIFICATION:- FAILED'):].strip()})
             continue
         m = re.match(r'^Verification Time: ([0-9.]+)s', ln)
         if m:
